@@ -173,6 +173,9 @@ impl Share {
     let mut slice = bytes;
 
     // A: AccessStructure
+    if slice.len() < ACCESS_STRUCTURE_LENGTH {
+      return None;
+    }
     let a = AccessStructure::from_bytes(&slice[..ACCESS_STRUCTURE_LENGTH])?;
     slice = &slice[ACCESS_STRUCTURE_LENGTH..];
 
